@@ -155,6 +155,27 @@ def f_aggr(p):
     return n
 
 
+def f_outer_aggr2(p):
+    # outermost aggregates of every kind (count/sum/min/max/mean), with filters and computed targets; small integers so that
+    # every summation order is exact
+    n = p.fresh("ob")
+    p.decl(n, [("c", "number"), ("s", "number"), ("lo", "number"), ("hi", "number")])
+    k = p.r.randrange(1, 9)
+    p.rule("%s(c,s,lo,hi) :- c = count : { e1(x,y), x < y + %d }, s = sum x*y+1 : { e1(x,y), x >= 0, y >= 0 }, lo = min x+y : { e1(x,y) }, hi = max x-y : { e2(x,y,_) }."
+           % (n, k))
+    fl = p.fresh("ofl")
+    p.decl(fl, [("x", "number"), ("v", "float")])
+    p.rule("%s(x, to_float(x) / 4) :- n1(x)." % fl)
+    p.rule("%s(x, to_float(y) / 2) :- e1(x,y), x < 6." % fl)
+    g = p.fresh("og")
+    p.decl(g, [("m", "float"), ("s", "float")])
+    p.rule("%s(m,s) :- m = mean v : { %s(_,v) }, s = sum v : { %s(_,v) }." % (g, fl, fl))
+    m = p.fresh("om")
+    p.decl(m, [("k", "number"), ("m", "float")])
+    p.rule("%s(k,m) :- n1(k), m = mean v : { %s(k,v) }." % (m, fl))
+    return n
+
+
 def f_outer_aggr(p):
     n = p.fresh("oa")
     p.decl(n, [("k", "number"), ("v", "number")], p.repr_for(2))
@@ -315,7 +336,7 @@ def f_index_brie(p):
     return a
 
 
-FRAGMENTS = [f_exists, f_index_brie, f_filter, f_join, f_join3, f_tc, f_mutual, f_negation, f_aggr, f_outer_aggr, f_strings, f_records, f_adt, f_eqrel, f_multi,
+FRAGMENTS = [f_exists, f_index_brie, f_outer_aggr2, f_filter, f_join, f_join3, f_tc, f_mutual, f_negation, f_aggr, f_outer_aggr, f_strings, f_records, f_adt, f_eqrel, f_multi,
              f_arith, f_indexed]
 
 
